@@ -5,4 +5,5 @@ INVARIANT InvPerfectAgg
 INVARIANT InvNeverBetter
 INVARIANT InvAggConsistency
 INVARIANT InvOrder
+INVARIANT InvShift
 CHECK_DEADLOCK FALSE
